@@ -71,6 +71,15 @@ theorem C20_spread_arguments_untouched (as las sas : List String) (callee ta e :
   have hc : canInjectOption call name = false := by simp [call, canInjectOption]
   exact ⟨hc, by simp [injectOption, hc]⟩
 
+/-- A call without arguments is left alone: there is no component to attach options to (fix f5fb517; before, the options object
+    became the FIRST argument - the component itself - and every further run appended another one). -/
+theorem C20_no_arguments_untouched (as las : List String) (callee ta : Node) (name : String) (v : Node) :
+    let call := Node.mk .call as [callee, .mk .list las [], ta]
+    canInjectOption call name = false ∧ injectOption call name v = call := by
+  intro call
+  have hc : canInjectOption call name = false := by simp [call, canInjectOption]
+  exact ⟨hc, by simp [injectOption, hc]⟩
+
 /-- An options expression that is not an object literal is spread AFTER the injected key, so whatever it provides wins. -/
 theorem C20_options_expression_spread_last (as las aas : List String) (callee first ta e : Node) (restArgs : List Node)
     (name : String) (v : Node) (hf : ∀ a k, first ≠ .mk .spreadArg a k) (he : ∀ a k, e ≠ .mk .object a k) :
@@ -78,7 +87,7 @@ theorem C20_options_expression_spread_last (as las aas : List String) (callee fi
       = .mk .call as [callee, .mk .list las (first :: nArg (nObject [nKV (nIdentName name) v, nSpreadElement e]) :: restArgs), ta] := by
   have h1 := notSpreadArg first hf
   have hc : canInjectOption (.mk .call as [callee, .mk .list las (first :: .mk .arg aas [e] :: restArgs), ta]) name = true := by
-    simp only [canInjectOption, List.take, List.any, h1, Bool.false_or, Bool.or_false]
+    simp only [canInjectOption, List.take, List.any, h1, Bool.false_or, Bool.or_false, List.isEmpty_cons]
     simp only [List.getElem?_cons_succ, List.getElem?_cons_zero, Bool.false_eq_true, if_false]
     split
     · rename_i hh
